@@ -14,7 +14,11 @@ import (
 
 	"github.com/bluenviron/gortsplib/v5/pkg/ringbuffer"
 	"github.com/bluenviron/gortsplib/v5/pkg/verifhooks"
+
+	"verif/lib/vlib"
 )
+
+func vlibStack() string { return vlib.Stack() }
 
 // One clock for all stamps. It is the monotonic clock and not a shared atomic counter on purpose:
 // an atomic read-modify-write on one address orders all goroutines for the race detector and would
@@ -34,7 +38,13 @@ var pointNames = []string{
 	"proc.run.beforeCallback", "other",
 }
 
-const ptPullWait = 4
+const (
+	ptPushBeforeLock = 0
+	ptPushDone       = 1
+	ptPullBeforeLock = 2
+	ptPullDone       = 3
+	ptPullWait       = 4
+)
 
 func pointIdx(name string) uint8 {
 	for i, n := range pointNames {
@@ -55,6 +65,27 @@ type yev struct {
 type glog struct {
 	mu sync.Mutex
 	ev []yev
+	// tight bounds of the last critical section of this goroutine: the clock when the hook at
+	// "...beforeLock" returned and when the hook after the unlock ("ring.Push.beforeBroadcast",
+	// "ring.Pull.gotItem") was entered. The library takes the ring mutex only between those points.
+	lockExit  int64
+	doneEnter int64
+}
+
+// tighten narrows a boundary interval [s,e] of one Push / Pull issued by the goroutine owning g to
+// the stamps taken at the yield points around the critical section (sound as long as the points
+// are where /repo has them: directly before Lock and directly after Unlock).
+func (g *glog) tighten(s, e int64, done bool) (int64, int64) {
+	g.mu.Lock()
+	ls, de := g.lockExit, g.doneEnter
+	g.mu.Unlock()
+	if ls >= s && ls <= e {
+		if done && de >= ls && de <= e {
+			e = de
+		}
+		s = ls
+	}
+	return s, e
 }
 
 // runCtx is the state of one run that library callbacks and the hook touch.
@@ -83,6 +114,28 @@ type runCtx struct {
 	canary        int // plain variable: written by callbacks, read by the owner after Close returned
 
 	abort atomic.Bool // set by the watchdog: internal waits give up
+
+	panicMu sync.Mutex
+	panics  []string // "site|value" of panics recovered on harness goroutines inside library calls
+}
+
+// guard is deferred on every harness goroutine that calls into the library.
+func (rc *runCtx) guard() {
+	if v := recover(); v != nil {
+		site := panicSite(vlibStack())
+		rc.panicMu.Lock()
+		rc.panics = append(rc.panics, fmt.Sprintf("%s|%v", site, v))
+		rc.panicMu.Unlock()
+	}
+}
+
+func (rc *runCtx) panicked() string {
+	rc.panicMu.Lock()
+	defer rc.panicMu.Unlock()
+	if len(rc.panics) > 0 {
+		return rc.panics[0]
+	}
+	return ""
 }
 
 var curRun atomic.Pointer[runCtx]
@@ -137,7 +190,18 @@ func yieldHook(name string) {
 	g.mu.Lock()
 	g.ev = append(g.ev, yev{t, pi})
 	n := uint64(len(g.ev))
+	if pi == ptPushDone || pi == ptPullDone {
+		g.doneEnter = t
+	}
 	g.mu.Unlock()
+	if pi == ptPushBeforeLock || pi == ptPullBeforeLock {
+		defer func() {
+			te := now()
+			g.mu.Lock()
+			g.lockExit = te
+			g.mu.Unlock()
+		}()
+	}
 	if pi == ptPullWait {
 		// called with the ring mutex held right before cond.Wait: record only
 		rc.parked.Add(1)
@@ -224,13 +288,15 @@ func producers(rc *runCtx, push func(id int) bool) (logs []*producerLog, release
 		wg.Add(1)
 		go func(i int) {
 			defer wg.Done()
-			rc.glogOf(goid()) // register before the gate: no synchronisation inside the run
+			defer rc.guard()
+			g := rc.glogOf(goid()) // register before the gate: no synchronisation inside the run
 			<-gate
 			for k := 0; k < p.Items[i]; k++ {
 				id := i*10000 + k
 				s := now()
 				ok := push(id)
 				e := now()
+				s, e = g.tighten(s, e, ok)
 				lg.ops = append(lg.ops, op{C: i, K: "push", ID: id, OK: ok, S: s, E: e})
 				if p.PushGap > 0 && int(mix(p.YieldSeed^uint64(id)*31)%100) < p.PushGap {
 					runtime.Gosched()
@@ -288,11 +354,16 @@ func runProc(rc *runCtx) (h *history, stuck string) {
 				rc.late.Add(1)
 			}
 			rc.canary++
+			// the Pull that delivered this item lies between the previous callback's return and st,
+			// more precisely between the consumer's last two yield points around the ring mutex
+			rc.cons.mu.Lock()
+			ds, de := rc.glogOf(goid()).tighten(rc.cons.prevEnd, st, true)
+			rc.cons.mu.Unlock()
 			dawdle(&rc.prm, uint64(id)+7)
 			rc.cons.mu.Lock()
 			n := len(rc.cons.ops)
 			en := now()
-			rc.cons.ops = append(rc.cons.ops, op{C: p.Producers, K: "deq", ID: id, OK: true, S: rc.cons.prevEnd, E: st, X: en})
+			rc.cons.ops = append(rc.cons.ops, op{C: p.Producers, K: "deq", ID: id, OK: true, S: ds, E: de, X: en})
 			rc.cons.prevEnd = en
 			rc.cons.mu.Unlock()
 			if rc.closeReturned.Load() {
@@ -485,11 +556,13 @@ func runRing(rc *runCtx) (h *history, stuck string) {
 	consDone := make(chan struct{})
 	consumer := func() {
 		defer close(consDone)
-		rc.glogOf(goid())
+		defer rc.guard()
+		g := rc.glogOf(goid())
 		for n := 0; ; n++ {
 			s := now()
 			v, ok := rb.Pull()
 			e := now()
+			s, e = g.tighten(s, e, ok)
 			if !ok {
 				consOps = append(consOps, op{C: p.Producers, K: "pullfalse", ID: -1, S: s, E: e})
 				return
@@ -625,12 +698,21 @@ func runOnce(p params, watchdog time.Duration) (h *history, stuck string, late t
 	go func() {
 		rc.glogOf(goid())
 		var r res
+		defer func() {
+			if v := recover(); v != nil {
+				site := panicSite(vlibStack())
+				r.h = &history{P: p, StartCall: -1, CloseCall: -1, CloseRet: -1, Panic: fmt.Sprintf("%s|%v", site, v)}
+			}
+			ch <- r
+		}()
 		if p.Layer == "ring" {
 			r.h, r.stuck = runRing(rc)
 		} else {
 			r.h, r.stuck = runProc(rc)
 		}
-		ch <- r
+		if r.h != nil && r.h.Panic == "" {
+			r.h.Panic = rc.panicked()
+		}
 	}()
 	canaryStop := make(chan struct{})
 	var worst atomic.Int64
